@@ -211,7 +211,7 @@ func checkMain(args []string) int {
 			continue
 		}
 		opts := RunOpts{Entry: rs.Entry, Bounds: rs.Bounds, Solver: rs.Solver, Sched: rs.Sched, Unwind: rs.Unwind,
-			MaxPaths: rs.MaxPaths, MaxSteps: rs.MaxSteps, QueryMs: rs.QueryMs, SampleEvery: 1, AllowPanic: rs.AllowPanic, MaxViol: 2000}
+			MaxPaths: rs.MaxPaths, MaxSteps: rs.MaxSteps, QueryMs: rs.QueryMs, SampleEvery: 50, AllowPanic: rs.AllowPanic, MaxViol: 2000}
 		opts.Preempt = -1
 		if rs.Preempt != nil {
 			opts.Preempt = *rs.Preempt
